@@ -11,7 +11,12 @@ use std::io::{BufRead, Write};
 
 fn main() {
     // panics are results, not noise
-    std::panic::set_hook(Box::new(|_| {}));
+    // … when they happen in the code under test; a panic of the harness itself is reported
+    std::panic::set_hook(Box::new(|info| {
+        if !run::IN_CASE.load(std::sync::atomic::Ordering::SeqCst) {
+            eprintln!("harness panic (outside a case): {info}");
+        }
+    }));
     run::start_watchdog();
     let args: Vec<String> = std::env::args().collect();
     match args.get(1).map(String::as_str) {
